@@ -243,6 +243,8 @@ func c18model(c *Ctx, rule string) {
 			return []oval{oInt(0), oNil{}}, true
 		case full == "runtime.GOMAXPROCS" || full == "runtime.NumCPU":
 			return []oval{oInt(2)}, true
+		case strings.HasPrefix(full, "(*sync.Mutex).") || strings.HasPrefix(full, "(*sync.RWMutex)."):
+			return nil, false // the interpreter's own model: uncontended, but released only when held
 		case f.Pkg() != nil && f.Pkg().Path() == "sync":
 			// the sequential semantics: locks are not contended
 			return make([]oval, f.Type().(*types.Signature).Results().Len()), true
